@@ -463,7 +463,7 @@ def run(ctx):
         explore(ctx, h, drv, 10, 6000, "tl")
         link_stream(ctx, h, drv, 60, 300, 12, "t")          # link stream (explicit-link model)
         link_stream(ctx, h, drv, 30, 300, 12, "tc", cursors=True)
-    if ctx.proof_broken or ctx.corr_broken:
+    if (ctx.proof_broken or ctx.corr_broken) and not ctx.violations:
         explore(ctx, h, drv, 80, 250, "search")
 
 
